@@ -18,6 +18,7 @@ RULE = ("every registered converter (list and extensions read from `ucg converte
 RULE += (" " + 'Also: 13 source places (names with dots, blanks, a leading dot, non-ASCII; subdirectories; other working directories; absolute paths); values whose conversion succeeds with zero bytes (fresh and over an earlier artifact); outputs of 20 KiB .. 100 KiB, first larger then smaller and the other way round.')
 RULE += (" " + 'Two-out files carry one of 15 kinds of evaluation between the two statements (function call, module instantiation, map/filter/reduce, template expression, import, select, assert, convert, constrained let) and second values computed by a call or a select.')
 RULE += (" " + 'Scenario imported-file-with-out: the file with the out statement is also imported by another built file of the same invocation, in both orders and listed twice.')
+RULE += (" " + 'Round 8: 6 of 22 places name the source on the command line through a symbolic link under another name and/or in another directory; the artifact is named like the file that was built, the link.')
 
 
 def converters_from_cli():
